@@ -152,6 +152,14 @@ class ParseCtx:
                 break
             e = defs[0].ast.value
             hops += 1
+        # a lookup table instead of a branch chain: fold `TABLE.get(op, default)` / `TABLE[op]` for this operator
+        if isinstance(e, ast.Call) and isinstance(e.func, ast.Attribute) and e.func.attr == "get" and e.args and q.dotted(e.args[0]) == self.op and isinstance(e.func.value, ast.Name):
+            tbl = single_assignment(self.fi.node, e.func.value.id) or self.fi.module.assigns.get(e.func.value.id)
+            dl = dict_literal(tbl) if tbl is not None else None
+            if dl is not None:
+                if v in dl:
+                    return dl[v]
+                return self.resolve_under(v, e.args[1], at) if len(e.args) > 1 else ast.Constant(value=None)
         return e
 
     def ctor_calls(self, v):
@@ -1413,6 +1421,9 @@ def rule_inherit(ck, px):
 
 
 def run(ck):
+    from ..x_valuewalk import guard_obligations
+
+    guard_obligations(ck, ['_parse', '_get_ancestors', '_generate_python', '_format_code', '_create_template', '_find_directive'])
     ck.rule("C19.raise-class", "every raise statement in the call closure of _parse / _get_ancestors constructs ParseError; a helper raising another class is only called behind a handler that raises ParseError or a membership guard over the values it accepts")
     ck.rule("C19.error-line", "raise_parse_error raises ParseError(message, reader.name, reader.line); ParseError keeps them; consume() advances reader.line by the newlines of exactly the consumed span before moving pos; _parse never raises directly")
     ck.rule("C19.block-bound", "for every operator literal of the dispatch (tests constant-folded per operator) the node variable is assigned in the current iteration on every path to body.chunks.append(<var>)")
